@@ -193,6 +193,10 @@ Definition op_write_page (s : st) (pgno : N) (p : pg) : outcome * st :=
     let s1 := if wal_mode s then s else with_dirty s (insert_sorted pgno (dirty s)) in
     (Done, write_db_page s1 pgno p).
 
+Definition op_write_page_j (s : st) (pgno : N) (p : pg) : outcome * st :=
+  if negb (writeable s) then (Failed, s)
+  else (Done, write_db_page (with_dirty s (insert_sorted pgno (dirty s))) pgno p).
+
 (* TruncateDatabase db.go:986 *)
 Definition op_truncate (s : st) (n : N) : outcome * st :=
   if negb (n =? pageN s) then (Failed, s) else (Done, truncate_db s n).
@@ -304,7 +308,9 @@ Fixpoint merge_latest (tx : list (N * pg)) (wl : list (N * pg)) : list (N * pg) 
    wal.offset, in write order; [commit] the size field of its commit frame. *)
 Definition op_commit_wal (s : st) (frames : list (N * pg)) (commit : N) : outcome * st :=
   let tx := sort_pages (last_versions frames []) [] in
-  let tx_nolock := filter (fun kv => negb (fst kv =? lockpg s)) tx in
+  (* neither the lock page nor a page beyond the size the commit frame leaves (written earlier in the transaction by a
+     cache spill, then truncated away) is part of the transaction file *)
+  let tx_nolock := filter (fun kv => negb (fst kv =? lockpg s) && (fst kv <=? commit)) tx in
   let new0 := map (fun kv => (fst kv, pg_h (snd kv))) tx_nolock in
   match truncated_pages s (commit + 1) (N.to_nat (pageN s)) new0 with
   | None => (Exited, s)
@@ -491,9 +497,12 @@ Inductive op :=
 | OReceive (f : ltxrec)
 | ORetention (ages : list bool) (backup : bool) (hwm : N)
 | OImport (pages : list (N * pg)) (commit : N) (ok : bool)
-| OCommitJournalFail (commit : N).   (* a journal commit that fails inside LiteFS before the transaction file is published
+| OCommitJournalFail (commit : N)   (* a journal commit that fails inside LiteFS before the transaction file is published
                                         (db.go CommitJournal: create / encode / sync / forward / rename error): nothing it touched
                                         survives - the cleared checksums of pages beyond the new size are put back *)
+| OWriteJ (pgno : N) (p : pg).        (* a page write inside a rollback-journal transaction (the journal's header has been written):
+                                         tracked as dirty whatever journal mode the header names - SQLite leaves WAL mode by
+                                         rewriting page 1 under a rollback journal while the header still says WAL *)
 
 Definition set_writeable (s : st) (b : bool) : st :=
   mkSt b (lockpg s) (dbfile s) (pageN s) (wal_mode s) (chk_pages s) (chk_blocks s) (wal_chk s) (wal_latest s)
@@ -515,6 +524,7 @@ Definition step (s : st) (o : op) : outcome * st :=
   | OReceive f => op_receive s f
   | OImport pages commit ok => op_import s pages commit ok
   | OCommitJournalFail _ => (Done, s)
+  | OWriteJ p q => op_write_page_j s p q
   | ORetention ages backup hwm =>
       (* ages: one flag per file of the directory, in order; a file is identified by its max TXID *)
       let tagged := combine (map l_max (ltxdir s)) ages in
